@@ -97,6 +97,19 @@ func checkSIDs(seedA, seedB uint64) string {
 			return "two different passphrases give the same SID"
 		}
 	}
+	// nearby secrets: every single-bit change of the 110 significant bits
+	// (what a phrase differing in one word can produce) is a different secret
+	// and must give a different identifier
+	seen := map[[64]byte]int{sc: -1}
+	for bit := 0; bit < 110; bit++ {
+		near := append([]byte(nil), passA...)
+		near[bit/8] ^= 1 << uint(7-bit%8)
+		sn, _ := sidOf(mailbox.NewConnData(cli, nil, near, nil, noop1, noop2))
+		if other, dup := seen[sn]; dup {
+			return fmt.Sprintf("passphrases that differ in entropy bit %d (and %d) give the same SID", bit, other)
+		}
+		seen[sn] = bit
+	}
 	// directions
 	s2c := mailbox.GetSID(sc, true)
 	c2s := mailbox.GetSID(sc, false)
